@@ -184,8 +184,22 @@ SIZES = [0, 1, 2, 5]
 
 def decl_in(sc, region, rng, kinds=('var', 'field', 'bitfield', 'typedecl', 'alias')):
     k = rng.choice(kinds)
-    x = sc.ident()
-    t = sc.expr() if k == 'alias' else rng.choice(sc.types)
+    # a name may be declared more than once in a scope (here: with another type, an overload): the scope then holds more declarations
+    # than names
+    prev = sc.__dict__.setdefault('declared', {}).setdefault(region, [])
+    same_kind = [p for p in prev if p[0] == k]
+    same_kind = [p for p in same_kind if k != 'alias']
+    others = None
+    if same_kind and rng.random() < 0.35:
+        _, x, t0 = rng.choice(same_kind)
+        taken = {p[2] for p in prev if p[1] == x}
+        others = [u for u in sc.types if u not in taken]
+    if others:
+        t = rng.choice(others)                  # (the same name with another type: an overload, one more declaration under one name)
+    else:
+        x = sc.ident()
+        t = sc.expr() if k == 'alias' else rng.choice(sc.types)
+    prev.append((k, x, t))
     (d,) = sc.nodes('%s %s %s %s' % (k, region, x, t), 1)
     return k, d
 
